@@ -33,6 +33,7 @@ type simRegion struct {
 	name        []byte
 	addr        string
 	faults      []string            // exception kinds answered to the next requests (probes included)
+	mutateValue []byte              // non-nil: a mutate is answered with one result cell holding this value
 	keyFaults   map[string][]string // per row key: exception kinds answered to its next requests
 	bounce      []string            // hbase:meta reports these addresses in turn; all of them host the region
 	staleAddr   string              // hbase:meta still reports this previous location …
@@ -78,8 +79,11 @@ type simCluster struct {
 	silent      map[string]bool
 	metaAddr    string
 	metaSil     bool
-	metaSwallow int   // the next n meta scans are never answered (a slow / restarting meta server)
-	zkErr       int32 // >0: LocateResource fails that many times
+	zkTimes     []time.Time            // when ZooKeeper was asked
+	dialTimes   map[string][]time.Time // when each address was dialled
+	keyRelease  chan struct{}          // closed by a scenario to let "HOLD:" answers go
+	metaSwallow int                    // the next n meta scans are never answered (a slow / restarting meta server)
+	zkErr       int32                  // >0: LocateResource fails that many times
 	zkSilent    int32
 	zkCalls     int32
 	conns       []*simConn
@@ -111,6 +115,9 @@ func (c *simCluster) addRegion(ns, table, start, stop []byte, addr string) *simR
 // LocateResource implements zk.Client.
 func (c *simCluster) LocateResource(res zk.ResourceName) (string, error) {
 	atomic.AddInt32(&c.zkCalls, 1)
+	c.mu.Lock()
+	c.zkTimes = append(c.zkTimes, time.Now())
+	c.mu.Unlock()
 	if atomic.LoadInt32(&c.zkSilent) > 0 {
 		select {} // never answers
 	}
@@ -162,6 +169,10 @@ func (s *simConn) String() string { return fmt.Sprintf("simConn{%s#%d}", s.addr,
 func (s *simConn) Dial(ctx context.Context) error {
 	atomic.AddInt32(&s.dials, 1)
 	s.c.mu.Lock()
+	if s.c.dialTimes == nil {
+		s.c.dialTimes = map[string][]time.Time{}
+	}
+	s.c.dialTimes[s.addr] = append(s.c.dialTimes[s.addr], time.Now())
 	down := s.c.down[s.addr]
 	hold := s.c.dialHold
 	s.c.mu.Unlock()
@@ -365,7 +376,35 @@ func (s *simConn) serve(call hrpc.Call) {
 			return
 		}
 	}
+	if len(reg.faults) > 0 && strings.HasPrefix(reg.faults[0], "PROBE:") && sv.kind == "probe" {
+		k := strings.TrimPrefix(reg.faults[0], "PROBE:")
+		reg.faults = reg.faults[1:]
+		finish(k)
+		deliver(nil, excErr(k))
+		return
+	}
+	for len(reg.faults) > 0 && strings.HasPrefix(reg.faults[0], "PROBE:") && sv.kind != "probe" {
+		reg.faults = reg.faults[1:] // probe-only faults do not apply to requests
+	}
+	if kf := reg.keyFaults[string(call.Key())]; len(kf) > 0 && sv.kind != "probe" && strings.HasPrefix(kf[0], "HOLD:") {
+		// the answer (an exception of the given kind) arrives only when the scenario releases it
+		reg.keyFaults[string(call.Key())] = kf[1:]
+		k := strings.TrimPrefix(kf[0], "HOLD:")
+		if k == "connErr" {
+			atomic.StoreInt32(&s.deadOK, 1)
+		}
+		rel := c.keyRelease
+		finish("held-" + k)
+		go func() {
+			<-rel
+			deliver(nil, excErr(k))
+		}()
+		return
+	}
 	if kf := reg.keyFaults[string(call.Key())]; len(kf) > 0 && sv.kind != "probe" {
+		if kf[0] == "connErr" {
+			atomic.StoreInt32(&s.deadOK, 1)
+		}
 		reg.keyFaults[string(call.Key())] = kf[1:]
 		finish(kf[0])
 		deliver(nil, excErr(kf[0]))
@@ -390,6 +429,11 @@ func (s *simConn) serve(call hrpc.Call) {
 	finish("ok")
 	if sv.kind == "mutate" {
 		t := true
+		if reg.mutateValue != nil {
+			deliver(&pb.MutateResponse{Processed: &t, Result: &pb.Result{Cell: []*pb.Cell{{Row: call.Key(),
+				Family: []byte("f"), Qualifier: []byte("q"), Value: reg.mutateValue}}}}, nil)
+			return
+		}
 		deliver(&pb.MutateResponse{Processed: &t}, nil)
 	} else {
 		t := true
